@@ -10,6 +10,7 @@ import (
 
 	"rscheck/cfgq"
 	"rscheck/core"
+	"rscheck/lin"
 	"rscheck/pat"
 	"rscheck/rules/c10/flow"
 )
@@ -57,49 +58,80 @@ func (r *rs) psyncReply() {
 		}
 		return k
 	}
-	// keyword tests
+	// keyword tests: every branch fact of the function (if/for conditions, tagless and tagged switch
+	// cases, boolean locals) that compares something with the constants "continue" / "fullresync"
+	foldKw := func(f cfgq.Fact) (kw string, arg ast.Expr, ok bool) { // strings.EqualFold(x, "kw")
+		call, isCall := ast.Unparen(f.Expr).(*ast.CallExpr)
+		if !isCall || len(call.Args) != 2 || !core.IsFunc(core.CalleeFunc(info, call), "strings", "", "EqualFold") {
+			return "", nil, false
+		}
+		for _, p := range [][2]ast.Expr{{call.Args[0], call.Args[1]}, {call.Args[1], call.Args[0]}} {
+			if s, isC := core.StringConst(info, p[1]); isC {
+				return strings.ToLower(s), p[0], true
+			}
+		}
+		return "", nil, false
+	}
 	kwFact := func(want string) func(cfgq.Fact) bool {
 		return func(f cfgq.Fact) bool {
+			if kw, _, ok := foldKw(f); ok {
+				return f.Val && kw == want
+			}
 			s, eq, ok := flow.StrCmp(info, f, func(e ast.Expr) bool { return true })
 			return ok && eq && strings.ToLower(s) == want
 		}
 	}
 	seen := map[string]bool{}
-	core.Inspect(fn.Decl.Body, func(m ast.Node) bool {
-		be, ok := m.(*ast.BinaryExpr)
-		if !ok || be.Op != token.EQL && be.Op != token.NEQ {
-			return true
+	for _, blk := range g.CFG.Blocks {
+		if !blk.Live || len(blk.Succs) != 2 {
+			continue
 		}
-		for _, side := range [][2]ast.Expr{{be.X, be.Y}, {be.Y, be.X}} {
-			s, isC := core.StringConst(info, side[1])
-			kw := strings.ToLower(s)
-			if !isC || kw != "continue" && kw != "fullresync" {
+		for _, f := range flow.EdgeFacts(g, blk, 0) {
+			if kw, arg, ok := foldKw(f); ok && (kw == "continue" || kw == "fullresync") && !seen[kw] {
+				seen[kw] = true
+				if field(ast.Unparen(flow.Resolve(info, fn.Decl.Body, ast.Unparen(arg)))) == 0 {
+					c.Okf("R5.reply", "SendPSyncContinue/keyword-"+kw, f.Expr.Pos(), "field 0 is compared with strings.EqualFold: every letter case matches")
+				} else {
+					c.Undecidedf("R5.reply", "SendPSyncContinue/keyword-"+kw, f.Expr.Pos(), "keyword comparison %s not recognised", c.Src(f.Expr))
+				}
 				continue
 			}
-			seen[kw] = true
-			key := "SendPSyncContinue/keyword-" + kw
-			other := ast.Unparen(flow.Resolve(info, fn.Decl.Body, ast.Unparen(side[0])))
-			call, isCall := other.(*ast.CallExpr)
-			f := (*types.Func)(nil)
-			if isCall {
-				f = core.CalleeFunc(info, call)
+			x, y, op, isRel := flow.Rel(f)
+			if !isRel || op != token.EQL && op != token.NEQ {
+				continue
 			}
-			switch {
-			case f != nil && core.IsFunc(f, "strings", "", "ToLower") && field(call.Args[0]) == 0:
-				c.Check("R5.reply", key, be.Pos(), s == kw, fmt.Sprintf("a lower-cased field is compared with %q, which can never match: the reply is rejected whatever its letter case", s))
-			case f != nil && core.IsFunc(f, "strings", "", "ToUpper") && field(call.Args[0]) == 0:
-				c.Check("R5.reply", key, be.Pos(), s == strings.ToUpper(s), fmt.Sprintf("an upper-cased field is compared with %q, which can never match: the reply is rejected whatever its letter case", s))
-			case field(other) == 0:
-				c.Failf("R5.reply", key, be.Pos(), "field 0 is compared with %q case-sensitively: a reply spelled in the other letter case (e.g. %q) is rejected", s, swapCase(s))
-			default:
-				c.Undecidedf("R5.reply", key, be.Pos(), "keyword comparison %s not recognised", c.Src(be))
+			for _, side := range [][2]ast.Expr{{x, y}, {y, x}} {
+				s, isC := core.StringConst(info, side[1])
+				kw := strings.ToLower(s)
+				if !isC || kw != "continue" && kw != "fullresync" || seen[kw] {
+					continue
+				}
+				seen[kw] = true
+				key := "SendPSyncContinue/keyword-" + kw
+				pos := side[1].Pos()
+				other := ast.Unparen(flow.Resolve(info, fn.Decl.Body, ast.Unparen(side[0])))
+				call, isCall := other.(*ast.CallExpr)
+				cf := (*types.Func)(nil)
+				if isCall {
+					cf = core.CalleeFunc(info, call)
+				}
+				arg0 := func() ast.Expr { return ast.Unparen(flow.Resolve(info, fn.Decl.Body, ast.Unparen(call.Args[0]))) }
+				switch {
+				case cf != nil && core.IsFunc(cf, "strings", "", "ToLower") && field(arg0()) == 0:
+					c.Check("R5.reply", key, pos, s == kw, fmt.Sprintf("a lower-cased field is compared with %q, which can never match: the reply is rejected whatever its letter case", s))
+				case cf != nil && core.IsFunc(cf, "strings", "", "ToUpper") && field(arg0()) == 0:
+					c.Check("R5.reply", key, pos, s == strings.ToUpper(s), fmt.Sprintf("an upper-cased field is compared with %q, which can never match: the reply is rejected whatever its letter case", s))
+				case field(other) == 0:
+					c.Failf("R5.reply", key, pos, "field 0 is compared with %q case-sensitively: a reply spelled in the other letter case (e.g. %q) is rejected", s, swapCase(s))
+				default:
+					c.Undecidedf("R5.reply", key, pos, "keyword comparison with %q not recognised", s)
+				}
 			}
 		}
-		return true
-	})
+	}
 	for _, kw := range []string{"continue", "fullresync"} {
 		if !seen[kw] {
-			c.Undecidedf("R5.reply", "SendPSyncContinue/keyword-"+kw, fn.Decl.Pos(), "no comparison with the keyword %q found (strings.EqualFold or another idiom?)", kw)
+			c.Undecidedf("R5.reply", "SendPSyncContinue/keyword-"+kw, fn.Decl.Pos(), "no comparison with the keyword %q found", kw)
 		}
 	}
 	// classify successful returns by the keyword edge they sit behind
@@ -178,64 +210,62 @@ func (r *rs) continueReturn(fn *core.Fn, g *cfgq.Graph, ret *ast.ReturnStmt, run
 	} else {
 		c.Check("R5.reply", "SendPSyncContinue/continue-runid", ret.Pos(), ok, "on CONTINUE the caller's run id is returned unchanged")
 	}
-	// offset: the value sent is inOffset+k (when != -1), the value returned must undo exactly that k
-	b := pat.Expr("_off - _k").Match(info, ret.Results[1], nil)
-	var back int64
-	var off types.Object
-	if b != nil {
-		k, isC := core.IntConst(info, b["_k"].(ast.Expr))
-		if !isC {
-			b = nil
+	// offset: PSYNC asks for the stream starting at byte S (the argument of the psync command); when the
+	// source continues, the caller has everything up to S-1, which is what must be returned. Both values
+	// are compared as linear forms over the same variables, so any way of computing S is accepted.
+	var sent ast.Expr
+	var sentCall *ast.CallExpr
+	for _, call := range flow.FindCalls(body, func(call *ast.CallExpr) bool {
+		f := core.CalleeFunc(info, call)
+		if f == nil || f.Name() != "NewCommand" || len(call.Args) < 3 {
+			return false
 		}
-		back, off = k, flow.Obj(info, b["_off"])
-	} else if o := flow.Obj(info, ret.Results[1]); o != nil {
-		b, off = pat.Binds{}, o
+		s, ok := core.StringConst(info, call.Args[0])
+		return ok && strings.ToLower(s) == "psync"
+	}) {
+		sent, sentCall = call.Args[2], call
 	}
-	if b == nil || off == nil {
-		c.Undecidedf("R5.reply", "SendPSyncContinue/continue-offset", ret.Pos(), "offset result %s not recognised", c.Src(ret.Results[1]))
+	if sent == nil {
+		c.Undecidedf("R5.reply", "SendPSyncContinue/continue-offset", ret.Pos(), "cannot find the psync command and its offset argument")
 		return
 	}
-	var fwd int64
-	nplain, nother := 0, 0
-	core.Inspect(body, func(m ast.Node) bool {
-		switch s := m.(type) {
-		case *ast.AssignStmt:
-			for i, l := range s.Lhs {
-				if !flow.IsObj(info, off)(l) {
-					continue
-				}
-				k, isC := int64(0), false
-				if len(s.Lhs) == len(s.Rhs) {
-					k, isC = core.IntConst(info, s.Rhs[i])
-				}
-				switch {
-				case s.Tok == token.ASSIGN && len(s.Lhs) == len(s.Rhs) && pat.Same(info, s.Rhs[i], offID):
-					nplain++
-				case s.Tok == token.ADD_ASSIGN && isC:
-					fwd += k
-				case s.Tok == token.SUB_ASSIGN && isC:
-					fwd -= k
-				default:
-					nother++
-				}
-			}
-		case *ast.IncDecStmt:
-			if flow.IsObj(info, off)(s.X) {
-				if s.Tok == token.INC {
-					fwd++
-				} else {
-					fwd--
-				}
-			}
-		}
-		return true
-	})
-	if nplain != 1 || nother > 0 {
-		c.Undecidedf("R5.reply", "SendPSyncContinue/continue-offset", ret.Pos(), "the offset variable is not `offset = inOffset` plus constant adjustments")
+	sf, rf := lin.Of(info, sent), lin.Of(info, ret.Results[1])
+	if !(lin.Form{Coef: sf.Coef}).Equal(lin.Form{Coef: rf.Coef}) || len(sf.Coef) == 0 {
+		c.Undecidedf("R5.reply", "SendPSyncContinue/continue-offset", ret.Pos(), "the offset returned (%s) and the offset requested (%s) are not computed from the same variable", c.Src(ret.Results[1]), c.Src(sent))
 		return
 	}
-	c.Check("R5.reply", "SendPSyncContinue/continue-offset", ret.Pos(), fwd == back,
-		fmt.Sprintf("PSYNC is sent with inOffset%+d and CONTINUE returns that value %+d: the caller's offset comes back shifted by %+d, so the bytes counted from it are acknowledged/resumed at the wrong position (lost or duplicated after a reconnect)", fwd, -back, fwd-back))
+	// the variables they are computed from must not change between the request and the return
+	sp, ok1 := flow.PointOf(g, sentCall)
+	rp, ok2 := flow.PointOf(g, ret)
+	changed := false
+	if ok1 && ok2 {
+		core.Inspect(sent, func(m ast.Node) bool {
+			id, isID := m.(*ast.Ident)
+			if !isID {
+				return true
+			}
+			if v, isVar := info.Uses[id].(*types.Var); isVar && !v.IsField() {
+				for _, ap := range g.Points(assignsTo(info, v)) {
+					if g.Path(cfgq.Query{From: sp, After: true, Target: isNode(ap.Node())}) != nil && g.Path(cfgq.Query{From: ap, After: true, Target: isNode(rp.Node())}) != nil {
+						changed = true
+					}
+				}
+				for _, ap := range g.Points(func(n ast.Node) bool { s, ok := n.(*ast.IncDecStmt); return ok && flow.IsObj(info, v)(s.X) }) {
+					if g.Path(cfgq.Query{From: sp, After: true, Target: isNode(ap.Node())}) != nil && g.Path(cfgq.Query{From: ap, After: true, Target: isNode(rp.Node())}) != nil {
+						changed = true
+					}
+				}
+			}
+			return true
+		})
+	}
+	if !ok1 || !ok2 || changed {
+		c.Undecidedf("R5.reply", "SendPSyncContinue/continue-offset", ret.Pos(), "the requested offset is modified between the psync command and the CONTINUE return")
+		return
+	}
+	shiftBy := rf.Const - (sf.Const - 1)
+	c.Check("R5.reply", "SendPSyncContinue/continue-offset", ret.Pos(), shiftBy == 0,
+		fmt.Sprintf("PSYNC asks for the stream from byte S and CONTINUE returns S%+d, but the caller then holds everything up to S-1: its offset comes back shifted by %+d, so the bytes counted from it are acknowledged/resumed at the wrong position (lost or duplicated after a reconnect)", rf.Const-sf.Const, shiftBy))
 }
 
 // ---------------------------------------------------------------------------
@@ -314,8 +344,9 @@ func (r *rs) sendPSyncCmd() {
 		isWait := flow.IsObj(info, res[2])
 		size := unconv(info, flow.Resolve(info, fn.Decl.Body, gc.Args[3]))
 		if isConst(info, size, 0) {
-			okN, wN := flow.OnlyVia(g, gp, func(f cfgq.Fact) bool { isNil, ok := flow.NilCmp(info, f, isWait); return ok && isNil })
-			c.Check("R5.use", key+"/size", gc.Pos(), okN, "the copy may start with RDB size 0 only when the handshake returned no wait channel (CONTINUE): otherwise the RDB is fed to the command parser", wN...)
+			r.guard("R5.use", key+"/size", gc.Pos(), g, gp, func(f cfgq.Fact) bool { isNil, ok := flow.NilCmp(info, f, isWait); return ok && isNil },
+				flow.Opaque(g, func(f cfgq.Fact) bool { _, ok := flow.NilCmp(info, f, isWait); return ok }, res[2]),
+				"the copy may start with RDB size 0 only when the handshake returned no wait channel (CONTINUE): otherwise the RDB is fed to the command parser")
 		} else if so := flow.Obj(info, size); so != nil {
 			recv := false
 			core.Inspect(fn.Decl.Body, func(m ast.Node) bool {
@@ -326,8 +357,13 @@ func (r *rs) sendPSyncCmd() {
 				}
 				return true
 			})
-			okZ, wZ := flow.OnlyVia(g, gp, func(f cfgq.Fact) bool { return nonZero(info, f, flow.IsObj(info, so)) })
-			c.Check("R5.use", key+"/size", gc.Pos(), recv && okZ, "the RDB size handed to the copy loop is the non-zero value received from the handshake's wait channel (0 ticks are keep-alives)", wZ...)
+			if !recv {
+				c.Undecidedf("R5.use", key+"/size", gc.Pos(), "cannot see %s being received from the handshake's wait channel", so.Name())
+			} else {
+				r.guard("R5.use", key+"/size", gc.Pos(), g, gp, func(f cfgq.Fact) bool { return nonZero(info, f, flow.IsObj(info, so)) },
+					flow.Opaque(g, func(f cfgq.Fact) bool { _, _, ok := flow.Cmp(info, f, flow.IsObj(info, so)); return ok }, so),
+					"the RDB size handed to the copy loop is the non-zero value received from the handshake's wait channel (0 ticks are keep-alives)")
+			}
 		} else {
 			c.Undecidedf("R5.use", key+"/size", gc.Pos(), "size argument %s not recognised", c.Src(gc.Args[3]))
 		}
@@ -483,9 +519,13 @@ func (r *rs) rawConn(pkgPath, recv, name string) {
 			}
 			return true
 		})
-		ok, w := flow.OnlyVia(g, p, func(f cfgq.Fact) bool { return nonZero(info, f, flow.IsObj(info, so)) })
-		c.Check("R2.reader", name+"/raw-conn", ret.Pos(), ok && recvd,
-			"the raw connection may be handed on only after a non-zero size was received from the header goroutine: before that the goroutine is still reading the same socket byte by byte, and a second reader would split the header/RDB bytes between the two", w...)
+		if !recvd {
+			c.Undecidedf("R2.reader", name+"/raw-conn", ret.Pos(), "cannot see %s being received from the header goroutine's channel", so.Name())
+			continue
+		}
+		r.guard("R2.reader", name+"/raw-conn", ret.Pos(), g, p, func(f cfgq.Fact) bool { return nonZero(info, f, flow.IsObj(info, so)) },
+			flow.Opaque(g, func(f cfgq.Fact) bool { _, _, ok := flow.Cmp(info, f, flow.IsObj(info, so)); return ok }, so),
+			"the raw connection may be handed on only after a non-zero size was received from the header goroutine: before that the goroutine is still reading the same socket byte by byte, and a second reader would split the header/RDB bytes between the two")
 	}
 	if k == 0 {
 		c.Undecidedf("R2.reader", name+"/raw-conn", fn.Decl.Pos(), "no (connection, size) return found")
